@@ -3,6 +3,7 @@
 //! a "kind" that selects the sub-check on replay.
 
 pub mod freq;
+pub mod hist;
 pub mod power;
 pub mod status;
 pub mod timeout;
@@ -12,6 +13,7 @@ use verif_core::*;
 
 pub fn replay(case: &Value, kf: &KnownFindings) -> Result<(), Failure> {
     match case["kind"].as_str() {
+        Some("history") => hist::replay(case),
         Some("freq") => freq::replay(case),
         Some("power") => power::replay(case),
         Some("symb") => timeout::replay_symb(case),
@@ -27,8 +29,9 @@ pub fn run(ctx: &mut Ctx) {
     // the statement's quantifier includes every integer Hz of 137-1020 MHz: only the thorough tier enumerates that
     ctx.exhaustive = full;
     ctx.rule = format!(
-        "(VERIF_SEED does not influence this check: every case is enumerated) enumeration, no random generation. FREQUENCY: set_channel on Sx126x(SX1262), Sx127x(SX1276), Sx127x(SX1272) for {}; plus ~390 named LoRaWAN channel frequencies (EU868, EU433, US915, AU915, AS923-1..4, IN865, KR920, CN470) through LorawanRadio::tx and ::setup_rx on the three chips; the captured SetRfFrequency word / RegFrf bytes are decoded with the datasheet formula. POWER: every request -128..=127 plus 17 wide values (i32 extremes, +-256, +-32768, ...) x 8 PA paths (SX1261, SX1262, STM32WL HP/LP, SX1276 RFO/PA_BOOST, SX1272 RFO/PA_BOOST) x band (unknown, 169, 433, 868 MHz) x ramp selection through RadioKind::set_tx_power_and_ramp_time, and -128..=127 x 8 x 3 bands through LoRa::prepare_for_tx. SYMBOL TIMEOUT: do_rx(RxMode::Single(n)) for every n in 0..=65535 on SX1261, SX1262(rx boost), SX1276, SX1272. ADAPTER: LorawanRadio::setup_rx(Single{{ms}}) + rx_single for every (SF, BW) x ms 0..=1000 on SX1276 and SX1262, reading the programmed symbol count back from the chip model. STATUS: all 2^24 GetPacketStatus triples + every status byte + GetRssiInst on SX126x, all 65536 (RssiPkt, SnrPkt) through LorawanRadio::rx_single, all (PktSnr, PktRssi) x 9 frequencies on SX1276 and x 2 on SX1272 + RegRssiValue, and a 4096-point grid per SX127x chip through rx_single. One evaluation = one such call sequence. Non-trivial (distinct by construction, each enumerated tuple is visited once): frequency not a multiple of the synthesiser step; power request at or beyond a clamp edge of the PA path; symbol count at/above the chip maximum, below 4, or (SX126x) not representable as mantissa*2^(2e+1); adapter margin not a whole number of symbols on a pair the chip supports; raw SNR byte with the sign bit set",
-        if full { "EVERY integer Hz of 137..=1020 MHz (8.83e8 values per chip)" } else { "every integer Hz of the LoRaWAN bands 433.05-434.79, 863-870 (contains 865-867) and 902-928 MHz (superset of the 100 Hz channel grid) and a 101 Hz stride over the rest of 137-1020 MHz" }
+        "(VERIF_SEED only selects the random histories of the stateful stage; everything else is enumerated) STATELESS ENUMERATION: FREQUENCY: set_channel on Sx126x(SX1262), Sx127x(SX1276), Sx127x(SX1272) for {}; plus ~390 named LoRaWAN channel frequencies (EU868, EU433, US915, AU915, AS923-1..4, IN865, KR920, CN470) through LorawanRadio::tx and ::setup_rx on the three chips; the captured SetRfFrequency word / RegFrf bytes are decoded with the datasheet formula. POWER: every request -128..=127 plus 17 wide values (i32 extremes, +-256, +-32768, ...) x 8 PA paths (SX1261, SX1262, STM32WL HP/LP, SX1276 RFO/PA_BOOST, SX1272 RFO/PA_BOOST) x band (unknown, 169, 433, 868 MHz) x ramp selection through RadioKind::set_tx_power_and_ramp_time, and -128..=127 x 8 x 3 bands through LoRa::prepare_for_tx. SYMBOL TIMEOUT: do_rx(RxMode::Single(n)) for every n in 0..=65535 on SX1261, SX1262(rx boost), SX1276, SX1272. ADAPTER: LorawanRadio::setup_rx(Single{{ms}}) + rx_single for every (SF, BW) x ms 0..=1000 on SX1276 and SX1262, reading the programmed symbol count back from the chip model. STATUS: all 2^24 GetPacketStatus triples + every status byte + GetRssiInst on SX126x, all 65536 (RssiPkt, SnrPkt) through LorawanRadio::rx_single, all (PktSnr, PktRssi) x 9 frequencies on SX1276 and x 2 on SX1272 + RegRssiValue, and a 4096-point grid per SX127x chip through rx_single. One evaluation = one such call sequence. Non-trivial (distinct by construction, each enumerated tuple is visited once): frequency not a multiple of the synthesiser step; power request at or beyond a clamp edge of the PA path; symbol count at/above the chip maximum, below 4, or (SX126x) not representable as mantissa*2^(2e+1); adapter margin not a whole number of symbols on a pair the chip supports; raw SNR byte with the sign bit set.{}",
+        if full { "EVERY integer Hz of 137..=1020 MHz (8.83e8 values per chip)" } else { "every integer Hz of the LoRaWAN bands 433.05-434.79, 863-870 (contains 865-867) and 902-928 MHz (superset of the 100 Hz channel grid) and a 101 Hz stride over the rest of 137-1020 MHz" },
+        hist::RULE
     );
     ctx.assumptions = vec![
         "decoders transcribed from the datasheets: SX126x f = RfFreq*32MHz/2^25, SetPaConfig/SetTxParams operating points of table 13-21 with 1 dB per SetTxParams step below a row's anchor; SX127x f = Frf*32MHz/2^19, RegPaConfig/RegPaDac formulas; SymbTimeout 10 bit; SX126x SYNCH_TIMEOUT register mantissa*2^(2*exp+1)".into(),
@@ -40,6 +43,8 @@ pub fn run(ctx: &mut Ctx) {
         "adapter: a window is 'covering' if it covers 12.25 symbols + margin computed with the nominal bandwidth or with the crate's rounded bandwidth constant; requests whose answer is the chip maximum are not judged".into(),
         "1 dB tolerance is inclusive (|reported - exact| <= 1 dB)".into(),
         "LR11xx is outside this property's statement and is not exercised".into(),
+        "stateful stage: 'the register values the drivers write' is read as the values the chip holds when the requested operation is carried out, whatever the same driver instance did before; a judged operation that returns an error before anything goes on the air is not judged; errors of prefix operations are tolerated; PA settings are judged for operations that transmit, the symbol timeout for operations that receive".into(),
+        "stateful stage chip doubles: SX126x SetSleep bit 2 = 0 (cold start) and NRESET return the chip to its power-on state on the next access (datasheet 9.3: only a warm start retains the configuration); SX127x keeps its registers in sleep mode (registers accessible and retained, datasheet 4.1.6) and restores the reset values on NRESET".into(),
     ];
     let kf = ctx.kf.clone();
     ctx.parallel(|ti, n, st| {
@@ -49,4 +54,5 @@ pub fn run(ctx: &mut Ctx) {
         timeout::sweep_adapter(ti, n, st, &kf);
         status::sweep(ti, n, st, &kf);
     });
+    hist::stage(ctx);
 }
